@@ -152,7 +152,8 @@ def gen_c11(seed, cfg=None):  # noqa: C901, PLR0912, PLR0915
             else:
                 op = {"op": "gc"}
         elif r < 0.22:
-            h = rng.choice(morph)
+            # the module-level retorts are private objects: a client cannot derive from them
+            h = rng.choice([x for x in morph if bases[x] == "Retort"])
             op = {"op": "extend", "h": h, "recipe": rng.choice(C11_RECIPES[3:])}
             bases.append(bases[h])
             morph.append(n_handles)
